@@ -182,15 +182,29 @@ def window_tiling(rep, model):
 EMPTY_RAISING = ('median', 'mean', 'min', 'max', 'argmax', 'argmin', 'pymin', 'pymax')
 
 
-def _nonempty_facts(c, pol):
-    """position sets known to be non-empty when condition c has truth value pol"""
+def _known(c, pol):
+    """the conditions known to be true once c has truth value pol"""
+    if pol:
+        return set(c[1]) if c[0] == 'and' else {c}
+    return {T.not_(x) for x in c[1]} if c[0] == 'or' else {T.not_(c)}
+
+
+def _nonempty_facts(c, pol, known=frozenset()):
+    """position sets known to be non-empty when condition c has truth value pol (known: conditions that hold on the path)"""
     if c[0] == 'not':
-        return _nonempty_facts(c[1], not pol)
+        return _nonempty_facts(c[1], not pol, known)
     if c[0] == 'and' and pol or c[0] == 'or' and not pol:
         out = set()
         for x in c[1]:
-            out |= _nonempty_facts(x, pol)
+            out |= _nonempty_facts(x, pol, known)
         return out
+    if c[0] == 'and' and not pol:
+        # a false conjunction whose other conjuncts hold on the path: the remaining conjunct is the false one
+        rest = [x for x in c[1] if x not in known]
+        return _nonempty_facts(rest[0], False, known) if len(rest) == 1 else set()
+    if c[0] == 'or' and pol:
+        rest = [x for x in c[1] if T.not_(x) not in known]
+        return _nonempty_facts(rest[0], True, known) if len(rest) == 1 else set()
     if c[0] == 'cmp' and c[1] == 'Eq' and C(0) in (c[2], c[3]) and not pol:
         other = c[3] if c[2] == C(0) else c[2]
         if other[0] == 'len':
@@ -203,22 +217,22 @@ def _nonempty_facts(c, pol):
     return set()
 
 
-def _surely_nonempty(x, facts):
+def _surely_nonempty(x, facts, known=frozenset()):
     """True / False (a bare position set, no emptiness test on the path) / None (not known)"""
     if x in facts:
         return True
     if x[0] in ('list', 'tuple'):
         return len(x[1]) > 0
     if x[0] == 'gamma':
-        a = _surely_nonempty(x[2], facts | _nonempty_facts(x[1], True))
-        b = _surely_nonempty(x[3], facts | _nonempty_facts(x[1], False))
+        a = _surely_nonempty(x[2], facts | _nonempty_facts(x[1], True, known), known | _known(x[1], True))
+        b = _surely_nonempty(x[3], facts | _nonempty_facts(x[1], False, known), known | _known(x[1], False))
         if a is False or b is False:
             return False
         return True if a and b else None
     if x[0] == 'call' and x[1] == 'flatnonzero':
         return False
     if x[0] == 'call' and x[1] in ('astype', 'sort', 'unique') and x[2]:
-        return _surely_nonempty(x[2][0], facts)
+        return _surely_nonempty(x[2][0], facts, known)
     return None
 
 
@@ -236,24 +250,24 @@ def crossing_total(rep, model):
         impl, ctx = E.run(model, f.qual, dict(b))
         sites, bad = [], []
 
-        def visit(t, facts):
+        def visit(t, facts, known=frozenset()):
             if not isinstance(t, tuple) or not t:
                 return
             if not isinstance(t[0], str):
                 for x in t:
-                    visit(x, facts)
+                    visit(x, facts, known)
                 return
             if t[0] == 'gamma' and len(t) == 4:
-                visit(t[1], facts)
-                visit(t[2], facts | _nonempty_facts(t[1], True))
-                visit(t[3], facts | _nonempty_facts(t[1], False))
+                visit(t[1], facts, known)
+                visit(t[2], facts | _nonempty_facts(t[1], True, known), known | _known(t[1], True))
+                visit(t[3], facts | _nonempty_facts(t[1], False, known), known | _known(t[1], False))
                 return
             if t[0] == 'arr' and len(t) == 3:
-                visit(t[1], facts)
+                visit(t[1], facts, known)
                 for k, v, g in t[2]:
-                    visit(k, facts)
-                    visit(g, facts)
-                    visit(v, facts | _nonempty_facts(g, True))
+                    visit(k, facts, known)
+                    visit(g, facts, known)
+                    visit(v, facts | _nonempty_facts(g, True, known), known | _known(g, True))
                 return
             red = None
             if t[0] == 'call' and t[1] in EMPTY_RAISING and t[2]:
@@ -261,12 +275,12 @@ def crossing_total(rep, model):
             elif t[0] == 'idx' and t[2] in (C(0), C(-1)) and t[1][0] in ('call', 'gamma') and any(x[0] == 'call' and x[1] == 'flatnonzero' for x in T.walk(t[1])):
                 red = t[1]
             if red is not None and any(x[0] == 'call' and x[1] == 'flatnonzero' for x in T.walk(red)):
-                r = _surely_nonempty(red, facts)
+                r = _surely_nonempty(red, facts, known)
                 sites.append((t[1] if t[0] == 'call' else 'element', r))
                 if r is False:
                     bad.append(t)
             for x in t[1:]:
-                visit(x, facts)
+                visit(x, facts, known)
         if impl is not None:
             visit(impl, frozenset())
         if bad:
